@@ -2,7 +2,7 @@
    The model (Machine.v, Merge.v, ArrayShift.v) is executable Gallina; its extraction is run against the real
    momo code on every check (props/C10/harness.cpp vs ocaml/driver.ml). *)
 From Coq Require Import ZArith List Permutation.
-From C10 Require Import Machine Merge MergeProofs.
+From C10 Require Import Machine Merge MergeProofs ArrayShift ArrayProofs.
 Import ListNotations.
 Local Open Scope Z_scope.
 
@@ -38,3 +38,138 @@ Theorem C10_no_copy_when_movable_hash :
     no_copy (tr (s_w (hrun c multi n (hinit src dst w)))).
 Proof. exact hmerge_no_copy. Qed.
 Print Assumptions C10_no_copy_when_movable_hash.
+
+(* ---- TreeSet::pvMergeTo (TreeSet.h:1597-1608): the same four statements, for every schedule and for EVERY tree
+   shape (the leaf / internal position of each extracted item is an arbitrary oracle `shape`). *)
+Theorem C10_merge_conservation_tree :
+  forall c multi src dst w shape n,
+    Permutation (tsrc_items (trun c multi n (tinit src dst w shape)) ++ t_dst (trun c multi n (tinit src dst w shape)))
+                (src ++ dst).
+Proof. exact tmerge_conservation. Qed.
+Print Assumptions C10_merge_conservation_tree.
+
+Theorem C10_merge_unique_nodup_tree :
+  forall c src dst w shape n, NoDup (map key dst) -> NoDup (map key (t_dst (trun c false n (tinit src dst w shape)))).
+Proof. exact tmerge_unique_nodup. Qed.
+Print Assumptions C10_merge_unique_nodup_tree.
+
+Theorem C10_merge_refused_stays_tree :
+  forall c src dst w shape n y, In y src -> has_key dst (key y) = true ->
+    In y (tsrc_items (trun c false n (tinit src dst w shape))).
+Proof. exact tmerge_refused_stays. Qed.
+Print Assumptions C10_merge_refused_stays_tree.
+
+Theorem C10_no_copy_when_movable_tree :
+  forall c multi src dst w shape n, nothrow_reloc c = true -> no_copy (tr w) ->
+    no_copy (tr (t_w (trun c multi n (tinit src dst w shape)))).
+Proof. exact tmerge_no_copy. Qed.
+Print Assumptions C10_no_copy_when_movable_tree.
+
+(* a merge that ran to completion left in the source only items whose key the unique-key destination already
+   holds; into a multi-key destination it left nothing *)
+Theorem C10_merge_finished_complete_tree :
+  forall c multi src dst w shape n,
+    t_stat (trun c multi n (tinit src dst w shape)) = Finished ->
+    t_rest (trun c multi n (tinit src dst w shape)) = [] /\
+    forall y, In y (tsrc_items (trun c multi n (tinit src dst w shape))) ->
+      multi = false /\ has_key (t_dst (trun c multi n (tinit src dst w shape))) (key y) = true.
+Proof. exact tmerge_finished_complete. Qed.
+Print Assumptions C10_merge_finished_complete_tree.
+
+(* non-vacuity of the previous theorem: with no failure scheduled the loop does finish (every category) *)
+Theorem C10_merge_without_failure_finishes_tree :
+  forall c multi src dst w shape, quiet w -> t_stat (tmerge c multi src dst w shape) = Finished.
+Proof. exact tmerge_quiet_finishes. Qed.
+Print Assumptions C10_merge_without_failure_finishes_tree.
+
+(* ---- TreeSet::pvMergeToLinear (TreeSet.h:1610-1630) *)
+Theorem C10_merge_conservation_linear :
+  forall c multi src dst w shape n,
+    Permutation (lsrc_items (lrun c multi n (linit src dst w shape)) ++ ldst_items (lrun c multi n (linit src dst w shape)))
+                (src ++ dst).
+Proof. exact lmerge_conservation. Qed.
+Print Assumptions C10_merge_conservation_linear.
+
+Theorem C10_no_copy_when_movable_linear :
+  forall c multi src dst w shape n, nothrow_reloc c = true -> no_copy (tr w) ->
+    no_copy (tr (l_w (lrun c multi n (linit src dst w shape)))).
+Proof. exact lmerge_no_copy. Qed.
+Print Assumptions C10_no_copy_when_movable_linear.
+
+(* ---- the extracted-item holder (SetExtractedItem), Set::Remove(iter, extItem) and Set::Insert(ExtractedItem&&) *)
+(* extraction, for every schedule: holder (+) bucket is the old bucket; a failed extraction changes nothing *)
+Theorem C10_extract_conservation :
+  forall c w b i w' b' h ok, (i < length b)%nat -> extract_at c w b i = (w', b', h, ok) ->
+    Permutation (holder_items h ++ b') b /\ (ok = false -> b' = b /\ h = None).
+Proof. exact extract_at_conservation. Qed.
+Print Assumptions C10_extract_conservation.
+
+(* re-insertion, for every schedule: holder (+) destination is conserved; the item leaves the holder only when it
+   really was inserted; refused (key present) or failed -> it stays in the holder; unique keys stay unique *)
+Theorem C10_insert_handle_conservation :
+  forall c multi w dst h w' dst' h' st, insert_holder c multi w dst h = (w', dst', h', st) ->
+    Permutation (holder_items h' ++ dst') (holder_items h ++ dst) /\
+    (h' = h /\ dst' = dst \/ exists x, h = Some x /\ h' = None /\ dst' = dst ++ [x] /\ st = Finished /\
+                                     (multi = false -> has_key dst (key x) = false)) /\
+    (multi = false -> NoDup (map key dst) -> NoDup (map key dst')).
+Proof. exact insert_holder_conservation. Qed.
+Print Assumptions C10_insert_handle_conservation.
+
+Theorem C10_extract_insert_roundtrip :
+  forall c w b i, quiet w -> (i < length b)%nat -> NoDup (map key b) ->
+    exists w1 b1 x w2 b2,
+      extract_at c w b i = (w1, b1, Some x, true) /\ x = nth i b 0 /\
+      insert_holder c false w1 b1 (Some x) = (w2, b2, None, Finished) /\ Permutation b2 b /\ quiet w2.
+Proof. exact extract_insert_roundtrip. Qed.
+Print Assumptions C10_extract_insert_roundtrip.
+
+(* the holder's move constructor never duplicates or loses the item, whether it throws or not *)
+Theorem C10_holder_move_conservation :
+  forall c w h w' n o, holder_move c w h = (w', n, o) ->
+    match n with Some h2 => o = None /\ h2 = h | None => o = h end.
+Proof. exact holder_move_conservation. Qed.
+Print Assumptions C10_holder_move_conservation.
+
+Theorem C10_no_copy_when_movable_reinsert :
+  forall c multi w dst h w' dst' h' st, nothrow_reloc c = true -> no_copy (tr w) ->
+    insert_holder c multi w dst h = (w', dst', h', st) -> no_copy (tr w').
+Proof. exact holder_no_copy. Qed.
+Print Assumptions C10_no_copy_when_movable_reinsert.
+
+(* the relocation mechanisms of ObjectManager themselves: a category with a move constructor is never copied *)
+Theorem C10_no_copy_when_movable_mechanisms :
+  forall c w x r w' o, nothrow_reloc c = true -> no_copy (tr w) -> extract_reloc c w x r = (w', o) -> no_copy (tr w').
+Proof. exact extract_reloc_no_copy. Qed.
+Print Assumptions C10_no_copy_when_movable_mechanisms.
+
+(* ---- array_basic: ArrayShifter::InsertNogrow / Remove (ArrayUtility.h:226-287), every category and schedule *)
+(* generic: whatever straight-line program of AddBack / Assign / RemoveBack runs, with whatever failures, the array
+   stays well formed: count consistent, every slot below count constructed (live or moved-from), every slot at or
+   above count raw, capacity unchanged *)
+Theorem C10_array_wellformed_after_any_failure :
+  forall c p w a w' a' o, wf a -> run c w a p = (w', a', o) -> wf a' /\ length (slots a') = length (slots a).
+Proof. exact run_wf. Qed.
+Print Assumptions C10_array_wellformed_after_any_failure.
+
+(* positional insert of a range (arrays of up to 8 elements, up to 4 inserted items, every index; the bounds of the
+   two branches are checked by a symbolic sweep): never touches a raw slot, well formed after success or failure,
+   old count <= count <= old count + inserted *)
+Theorem C10_array_basic_insert :
+  forall c w vals cap index items w' a' o,
+    (length vals <= 8)%nat -> (index <= length vals)%nat -> (length items <= 4)%nat ->
+    (length vals + length items <= cap)%nat ->
+    run c w (mk_arr vals cap) (insert_prog (length vals) index items) = (w', a', o) ->
+    o <> AStuck /\ wf a' /\ length (slots a') = cap /\
+    (length vals <= count a')%nat /\ (count a' <= length vals + length items)%nat /\
+    (o = AOk -> count a' = (length vals + length items)%nat).
+Proof. exact array_insert_basic. Qed.
+Print Assumptions C10_array_basic_insert.
+
+Theorem C10_array_basic_remove :
+  forall c w vals cap index cnt w' a' o,
+    (length vals <= 8)%nat -> (cnt <= 4)%nat -> (index + cnt <= length vals)%nat -> (length vals <= cap)%nat ->
+    run c w (mk_arr vals cap) (remove_prog (length vals) index cnt) = (w', a', o) ->
+    o <> AStuck /\ wf a' /\ length (slots a') = cap /\
+    (o = AOk -> count a' = (length vals - cnt)%nat) /\ (o = AExn -> count a' = length vals).
+Proof. exact array_remove_basic. Qed.
+Print Assumptions C10_array_basic_remove.
